@@ -59,11 +59,18 @@ async fn phase(transport: &str, why: &mut Vec<String>) {
         (addr, server_handle)
     } else {
         // (a keep-alive timeout shorter than the handler: it concerns idle HTTP/2 connections and must not bound the drain of calls in flight)
-        let cfg = jsonrpsee_server::ServerConfig::builder().set_keep_alive_timeout(Duration::from_millis(200)).build();
+        let cfg = jsonrpsee_server::ServerConfig::builder().set_keep_alive_timeout(Duration::from_millis(200));
+        // "ws-missed-ping": pings are on and the peer was late with a pong or two - far below the failure limit; the connection is open and its call is owed an answer
+        let cfg = if transport == "ws-missed-ping" {
+            cfg.enable_ws_ping(jsonrpsee_server::PingConfig::new().ping_interval(Duration::from_millis(100)).inactive_limit(Duration::from_millis(50)).max_failures(1000))
+        } else {
+            cfg
+        };
+        let cfg = cfg.build();
         let server = Server::builder().set_config(cfg).build("127.0.0.1:0").await.unwrap();
         (server.local_addr().unwrap(), server.start(module(log.clone())))
     };
-    let transport_kind = transport.trim_start_matches("low-level-");
+    let transport_kind = if transport == "ws-missed-ping" { "ws" } else { transport.trim_start_matches("low-level-") };
     let call = r#"{"jsonrpc":"2.0","id":1,"method":"slow","params":[7]}"#;
     // the in-flight call
     let answer: tokio::task::JoinHandle<(Option<String>, Instant)> = if transport_kind == "ws" {
@@ -101,6 +108,9 @@ async fn phase(transport: &str, why: &mut Vec<String>) {
     if at(&log, "start 7").is_none() {
         why.push(format!("{transport}: the handler never started"));
         return;
+    }
+    if transport == "ws-missed-ping" {
+        tokio::time::sleep(Duration::from_millis(350)).await;
     }
     let stop_at = Instant::now();
     if handle.stop().is_err() {
@@ -239,6 +249,7 @@ pub fn graceful_stop(_a: &Value) -> Value {
         phase("http", &mut why).await;
         phase("low-level-http", &mut why).await;
         phase("low-level-ws", &mut why).await;
+        phase("ws-missed-ping", &mut why).await;
         queued_answers_phase(&mut why).await;
         json!({"scenario":"c10_graceful_stop","observed":{},"violation":!why.is_empty(),"why":why.join(" | ")})
     })
